@@ -128,6 +128,10 @@ def generate(rng, tier):
             if rng.random() < 0.3:
                 # verbosity by the two shorthand flags
                 argv = [a for a in argv if not a.startswith('--verbose=')] + [rng.choice(['--quiet', '--silent']) if cmd != 'list' else '--quiet']
+            if rng.random() < 0.25:
+                # default options that change nothing the doctests depend on
+                argv.append(rng.choice(['--options=+ELLIPSIS', '--options=+NORMALIZE_WHITESPACE', '--options=-SKIP',
+                                        '--options=+ELLIPSIS,-IGNORE_WANT']))
             if rng.random() < 0.4:
                 argv += rng.sample(['--nocolor', '--durations=0', '--durations=3', '--offset', '--report=cdiff',
                                     '--report=none', '--analysis=static', '--analysis=dynamic'], rng.randint(1, 2))
@@ -136,6 +140,8 @@ def generate(rng, tier):
             ops.append({'op': 'runner', 'target': target, 'command': cmd, 'verbose': verbose,
                         'durations': rng.choice([None, None, 0, 2]),
                         'analysis': rng.choice(['auto', 'auto', 'static', 'dynamic'])})
+            if rng.random() < 0.25:
+                ops[-1]['config'] = {'default_runtime_state': rng.choice([{'ELLIPSIS': True}, {'SKIP': False}])}
     # plan: turn some passing executions into failures
     plan = []
     if many:
